@@ -33,7 +33,9 @@ CLAIMED = {
                  'order laws for binary64 not proved here; listing-order invariance of per-alternative values checked metamorphically.',
                  'Coq proof of the ranking model + vm_compute correspondence and checker on Go outputs', 'C04'),
     'C05': claim('Theorems (Properties/C05.v): every distillation partitions the alternatives into non-empty classes numbered consecutively from 1; links = index '
-                 'comparison; not-worse => fully concordant; credibility in [0,1]; termination with explicit fuel bound for non-negative distillation functions '
+                 'comparison; not-worse => fully concordant; credibility in [0,1]; termination with explicit fuel bound for non-negative distillation functions; ElectreSpecFacts: the distillation stated declaratively (cut levels, '
+                 'outranking at a cut level, qualification, best qualified, inner distillations) - the model computes exactly it, the definition determines the indices, credibility in closed form, and '
+                 'C05_ok_sound_Qc turns a passed check on real output into the statement of the property '
                  '(negative_distillation_diverges shows why validation is needed). Model = set-level distillation on original indices. Tie: full response '
                  'correspondence on electreIII requests + checker recomputing indices and links from the returned entries and the final parameters; raw matrices through the exported '
                  'RankAscending/RankDescending; the credibility matrix the code derives (evaluateCredibilityMatrix, exported by the overlay) entry by entry against the model; a search phase '
